@@ -19,6 +19,7 @@ import (
 	"encoding/json"
 	"fmt"
 	"io"
+	"strings"
 	"sync"
 	"testing"
 	"time"
@@ -38,6 +39,7 @@ type c14Case struct {
 	PingMs    int         `json:"ping_ms"`
 	Reconnect bool        `json:"reconnect"`
 	Garbage   int         `json:"garbage,omitempty"`   // malformed / invalid-id / batch frames arriving at the server from the peer while the workload runs
+	StallReq  bool        `json:"stall_req,omitempty"` // at the end the peer stops reading for longer than the client's timeout while the client is sending an 8 MiB request (pings keep ticking)
 	CloseMid  int         `json:"close_mid,omitempty"` // > 0: at the end the client's closer is invoked while the client is in the middle of writing a reverse-call response of this many bytes
 	Rules     []*HookRule `json:"rules,omitempty"`
 }
@@ -187,6 +189,21 @@ func runC14(c c14Case) (*Violation, string) {
 		wg.Add(1)
 		go func() {
 			defer wg.Done()
+			var slowGate chan struct{}
+			if c.Reverse > 0 && cl.Rev != nil {
+				// a reverse call whose client-side handler is still running when the connection is replaced: its
+				// answer is written after the swap
+				slowGate = make(chan struct{})
+				cl.Rev.Gate = slowGate
+				sp := rig.Go(cl, "call", rig.Tok("slowrev"), Plan{RevSlow: true})
+				for deadline := time.Now().Add(time.Second); !rig.W.InReverse(sp.Tok) && time.Now().Before(deadline); {
+					time.Sleep(200 * time.Microsecond)
+				}
+				defer func() {
+					close(slowGate)
+					time.Sleep(30 * time.Millisecond)
+				}()
+			}
 			time.Sleep(time.Duration(2+c.PingMs) * time.Millisecond)
 			rig.Proxy.CutAll("rst")
 			// notifications are written even while the client is between connections: they exercise
@@ -227,10 +244,31 @@ func runC14(c c14Case) (*Violation, string) {
 	if foreign != nil {
 		return foreign, ""
 	}
-	if c.CloseMid > 0 {
+	if c.StallReq {
+		// the peer stops reading for longer than the client's timeout while the client is in the middle of a request
+		// much larger than the socket buffers; the client's pinger keeps ticking meanwhile. The client may give the
+		// connection up (it is silent, after all), but it must not let a second writer onto a connection whose
+		// current message is unfinished
+		armed := rig.Proxy.StallAfterBytes("c2s", 64<<10)
+		p := rig.Go(cl, "call", rig.Tok("stallreq"), Plan{Junk: strings.Repeat("j", 8<<20)})
+		select {
+		case <-armed:
+			time.Sleep(100*ping + 600*time.Millisecond)
+		case <-p.Done:
+		case <-time.After(15 * time.Second):
+		}
+		rig.Proxy.Unstall()
+		select {
+		case <-p.Done:
+		case <-time.After(5 * time.Second):
+		}
+		time.Sleep(20 * time.Millisecond)
+	} else if c.CloseMid > 0 {
 		// the application closes the client while one of the client's own writers (a reverse-call response) is in
-		// the middle of a multi-fragment message: that message is completed, or the connection just ends; it is not
-		// cut short by a close frame
+		// the middle of a multi-fragment message: whatever reaches the wire must not be a close frame inside that
+		// unfinished message, and the closer's access to the connection must be synchronised with the writer
+		// (whether the interrupted message still reaches the peer is up to TCP: closing a socket with unread
+		// keepalives pending discards what is still in the send buffer, on the unchanged tree too)
 		armed := rig.Proxy.StallAfterBytes("c2s", 16<<10)
 		p := rig.Go(cl, "call", rig.Tok("closemid"), Plan{RevBig: c.CloseMid})
 		select {
@@ -242,18 +280,14 @@ func runC14(c c14Case) (*Violation, string) {
 			if !<-done {
 				return violf("closer-hang", "the closer, invoked while a %d-byte reverse-call response was being written, did not return within 6s", c.CloseMid), ""
 			}
-			// the message that was being written when the closer was invoked is finished before the connection is
-			// given up: the server-side caller of that reverse call gets its answer
-			for deadline := time.Now().Add(6 * time.Second); len(rig.W.Notes(p.Tok)) == 0 && time.Now().Before(deadline); {
-				time.Sleep(2 * time.Millisecond)
-			}
-			if notes := rig.W.Notes(p.Tok); len(notes) == 0 || notes[0] != "big-ok" {
-				return violf("message-torn-by-close", "the client's closer was invoked while the client was writing a %d-byte reverse-call response (a multi-fragment message, link paused for 40 ms): the message was not completed before the connection was given up; the server-side caller observed %v", c.CloseMid, notes), ""
-			}
 		case <-p.Done:
 		case <-time.After(15 * time.Second): // marshalling megabytes under the race detector on a busy machine takes a while
 		}
 		rig.Proxy.Unstall()
+		// what the client still had in its socket buffer has to pass the proxy before the end of the connection shows there
+		for deadline := time.Now().Add(3 * time.Second); rig.Proxy.LiveConns() > 0 && time.Now().Before(deadline); {
+			time.Sleep(2 * time.Millisecond)
+		}
 	}
 	if fv := rig.Proxy.FramingViolations(); len(fv) > 0 {
 		return violf("framing-violation", "WebSocket framing corrupted: %v", fv), ""
@@ -284,8 +318,14 @@ func c14NT(c c14Case) (bool, []string) {
 	add(c.PingMs <= 5, "w_pings")
 	add(c.Reconnect, "w_reconnect")
 	add(c.Garbage > 0, "w_invalid_inbound_frames")
-	if c.CloseMid > 0 {
+	if c.CloseMid > 0 && !c.StallReq {
 		cl = append(cl, "close_during_own_write")
+	}
+	if c.StallReq {
+		cl = append(cl, "peer_stops_reading_mid_request")
+	}
+	if c.Reconnect && c.Reverse > 0 {
+		cl = append(cl, "reverse_handler_running_across_reconnect")
 	}
 	multi := false
 	for _, s := range c.Sizes {
@@ -302,19 +342,19 @@ func c14NT(c c14Case) (bool, []string) {
 	return kinds >= 3 && multi, cl
 }
 
-const c14Rule = "one connection with, simultaneously: 0-6 caller goroutines x 1-8 calls with result sizes 10 B - 40 KiB, 0-3 running calls cancelled (cancel path 1), 0-4 subscriptions of 4-60 padded values (registration replies, values, closes; some cancelled through their context = cancel path 2), 0-3 forward calls that reverse-call three times, pings every 1-5 ms from both sides, optionally one connection reset with calls continuing across the swap, optionally 5-60 malformed / invalid-id / batch frames arriving from the peer meanwhile, optionally the client's closer invoked while the client is inside a 6-12 MiB multi-fragment reverse-call response (link paused for 40 ms); 0-3 delays of 50 us - 2 ms inside the writers' critical sections (write.locked). Non-trivial = >=3 writer kinds active and at least one multi-frame message; distinct by descriptor hash"
+const c14Rule = "one connection with, simultaneously: 0-6 caller goroutines x 1-8 calls with result sizes 10 B - 40 KiB, 0-3 running calls cancelled (cancel path 1), 0-4 subscriptions of 4-60 padded values (registration replies, values, closes; some cancelled through their context = cancel path 2), 0-3 forward calls that reverse-call three times, pings every 1-5 ms from both sides, optionally one connection reset with calls continuing across the swap, optionally 5-60 malformed / invalid-id / batch frames arriving from the peer meanwhile, optionally the client's closer invoked while the client is inside a 6-12 MiB multi-fragment reverse-call response (link paused for 40 ms), optionally the peer not reading for longer than the client's timeout while the client sends an 8 MiB request with its pinger ticking, a reverse call whose client-side handler is still running when the connection is replaced; 0-3 delays of 50 us - 2 ms inside the writers' critical sections (write.locked). Non-trivial = >=3 writer kinds active and at least one multi-frame message; distinct by descriptor hash"
 
 func TestC14(t *testing.T) {
 	rec := NewRec("C14", c14Rule)
 	defer rec.Finish(t)
 	rec.EnableJournal()
-	rec.RequireClass("w_invalid_inbound_frames", "close_during_own_write", "w_calls", "w_cancel_call", "w_streams", "w_cancel_sub", "w_reverse", "w_pings", "w_reconnect", "multi_frame", "with_delays")
+	rec.RequireClass("peer_stops_reading_mid_request", "reverse_handler_running_across_reconnect", "w_invalid_inbound_frames", "close_during_own_write", "w_calls", "w_cancel_call", "w_streams", "w_cancel_sub", "w_reverse", "w_pings", "w_reconnect", "multi_frame", "with_delays")
 	var msgs int64
 	run := func(ft failer, c c14Case) {
 		nt, cl := c14NT(c)
 		rec.Run(ft, c, nt, cl, func() *Violation {
 			v, info := runC14(c)
-			if v != nil && (v.Key == "workload-wedged" || v.Key == "message-torn-by-close") {
+			if v != nil && v.Key == "workload-wedged" {
 				if v2, _ := runC14(c); v2 == nil {
 					v = nil
 				}
@@ -353,6 +393,8 @@ func TestC14(t *testing.T) {
 			run(t, c)
 			c = c14Case{Callers: 1, CallsEach: 2, Sizes: []int{10}, PingMs: 2, CloseMid: 8 << 20, Garbage: 5}
 			run(t, c)
+			c = c14Case{Callers: 2, CallsEach: 2, Sizes: []int{10, 5000}, PingMs: 2, StallReq: true}
+			run(t, c)
 		}
 	})
 	rec.Rapid(t, "rapid", func(rt *rapid.T) {
@@ -367,6 +409,7 @@ func TestC14(t *testing.T) {
 		if rapid.IntRange(0, 2).Draw(rt, "garbagekind") == 0 {
 			c.Garbage = rapid.IntRange(5, 60).Draw(rt, "garbage")
 		}
+		c.StallReq = rapid.IntRange(0, 11).Draw(rt, "stallreq") == 0
 		if rapid.IntRange(0, 5).Draw(rt, "closemidkind") == 0 {
 			// more than the socket buffers on the path hold, so that the writer really is inside the message
 			c.CloseMid = rapid.SampledFrom([]int{6 << 20, 8 << 20, 12 << 20}).Draw(rt, "closemid")
